@@ -186,3 +186,165 @@ func VerifRTimeBool() {
 	}
 	nondet.Cover("checked")
 }
+
+// ---- mixed operand types.  Reference: the right operand is converted to the
+// left operand's type (FLOAT -> INTEGER by truncation toward zero, INTEGER ->
+// FLOAT exactly, RTIME -> INTEGER / FLOAT as its number of seconds, INTEGER /
+// FLOAT -> RTIME as that many whole seconds), then the left type's operation
+// is applied; INTEGER *= FLOAT alone multiplies in FLOAT and truncates the
+// product.  Operands are variables (not literals), finite, and small enough
+// (|x| <= 2^31, durations |d| <= 2^52 ns) for every intermediate to be exact
+// and in range, so the reference is unambiguous.
+
+var ArMixedCells = []string{
+	"INTEGER += FLOAT", "INTEGER -= FLOAT", "INTEGER *= FLOAT", "INTEGER /= FLOAT",
+	"FLOAT += INTEGER", "FLOAT -= INTEGER", "FLOAT *= INTEGER", "FLOAT /= INTEGER",
+	"INTEGER += RTIME", "INTEGER -= RTIME", "FLOAT += RTIME", "FLOAT -= RTIME",
+	"RTIME += INTEGER", "RTIME -= INTEGER", "RTIME *= INTEGER", "RTIME /= INTEGER",
+	"RTIME += FLOAT", "RTIME -= FLOAT", "RTIME *= FLOAT", "RTIME /= FLOAT",
+}
+
+func arSmallInt(n string) int64 {
+	v := nondet.Int64(n)
+	nondet.Assume(v >= -(1<<31) && v <= 1<<31)
+	return v
+}
+
+func arSmallFloat(n string) float64 {
+	f := nondet.Float64(n)
+	nondet.Assume(f >= -2147483648.0 && f <= 2147483648.0)
+	return f
+}
+
+func arApply(op string, l, r value.Value) error {
+	switch op {
+	case "+=":
+		return Addition(l, r)
+	case "-=":
+		return Subtraction(l, r)
+	case "*=":
+		return Multiplication(l, r)
+	}
+	return Division(l, r)
+}
+
+func VerifMixedArith() {
+	cell := ArMixedCells[nondet.Param("CELL")]
+	lt, op, rt := cell[:len(cell)-len(" += FLOAT")+0], "", ""
+	_ = lt
+	var f [3]string
+	k := 0
+	for _, w := range []byte(cell) {
+		if w == ' ' {
+			k++
+			continue
+		}
+		f[k] += string(w)
+	}
+	lt, op, rt = f[0], f[1], f[2]
+	const sec = int64(1000000000)
+	switch lt {
+	case "INTEGER":
+		a := arSmallInt("a")
+		l := &value.Integer{Value: a}
+		var want int64
+		var r value.Value
+		switch rt {
+		case "FLOAT":
+			x := arSmallFloat("x")
+			r = &value.Float{Value: x}
+			t := int64(x) // truncation toward zero
+			switch op {
+			case "+=":
+				want = a + t
+			case "-=":
+				want = a - t
+			case "*=":
+				p := float64(a) * x
+				nondet.Assume(p >= -9.0e18 && p <= 9.0e18)
+				want = int64(p)
+			default:
+				nondet.Assume(t != 0)
+				want = a / t
+			}
+		default: // RTIME, whole and fractional seconds
+			d := nondet.Int64("d")
+			nondet.Assume(d >= -(1<<52) && d <= 1<<52)
+			r = &value.RTime{Value: time.Duration(d)}
+			if op == "+=" {
+				want = a + d/sec
+			} else {
+				want = a - d/sec
+			}
+		}
+		err := arApply(op, l, r)
+		nondet.Assert(err == nil, cell+" fails on in-range operands")
+		nondet.Assert(!l.IsNAN && !l.IsPositiveInf && !l.IsNegativeInf, cell+" flags an in-range result")
+		nondet.Assert(l.Value == want, cell+" is not the reference result")
+	case "FLOAT":
+		x := arSmallFloat("x")
+		l := &value.Float{Value: x}
+		var want float64
+		var r value.Value
+		switch rt {
+		case "INTEGER":
+			b := arSmallInt("b")
+			r = &value.Integer{Value: b}
+			switch op {
+			case "+=":
+				want = x + float64(b)
+			case "-=":
+				want = x - float64(b)
+			case "*=":
+				want = x * float64(b)
+			default:
+				nondet.Assume(b != 0)
+				want = x / float64(b)
+			}
+		default: // RTIME of whole seconds
+			s := []int64{-86400, -90, -1, 0, 1, 2, 3600, 31536000}[nondet.Choice("s", 8)] // (symbolic seconds make the solver multiply and divide by 10^9: unknown at 60 s)
+			r = &value.RTime{Value: time.Duration(s * sec)}
+			if op == "+=" {
+				want = x + float64(s)
+			} else {
+				want = x - float64(s)
+			}
+		}
+		err := arApply(op, l, r)
+		nondet.Assert(err == nil, cell+" fails on in-range operands")
+		nondet.Assert(!l.IsNAN && !l.IsPositiveInf && !l.IsNegativeInf, cell+" flags an in-range result")
+		nondet.Assert(l.Value == want, cell+" is not the reference result")
+	default: // RTIME
+		d := nondet.Int64("d")
+		nondet.Assume(d >= -(1<<52) && d <= 1<<52)
+		l := &value.RTime{Value: time.Duration(d)}
+		var n int64
+		var r value.Value
+		if rt == "INTEGER" {
+			n = nondet.Int64("b")
+			nondet.Assume(n >= -1024 && n <= 1024)
+			r = &value.Integer{Value: n}
+		} else {
+			x := nondet.Float64("x")
+			nondet.Assume(x >= -1024.0 && x <= 1024.0)
+			r = &value.Float{Value: x}
+			n = int64(x)
+		}
+		var want int64
+		switch op {
+		case "+=":
+			want = d + n*sec
+		case "-=":
+			want = d - n*sec
+		case "*=":
+			want = d * n
+		default:
+			nondet.Assume(n != 0)
+			want = d / n
+		}
+		err := arApply(op, l, r)
+		nondet.Assert(err == nil, cell+" fails on in-range operands")
+		nondet.Assert(int64(l.Value) == want, cell+" is not the reference result")
+	}
+	nondet.Cover("checked")
+}
